@@ -15,6 +15,7 @@ import (
 	"github.com/cloudflare/pat-go/util"
 
 	"verif/internal/core"
+	"verif/internal/fixtures"
 	"verif/internal/ref"
 	"verif/internal/world"
 )
@@ -137,6 +138,17 @@ func RefPSSSPKI(n *big.Int, e int64) []byte {
 
 func (c c18) Execute(p *core.Plan) *core.Result {
 	res := core.NewResult()
+	// before anything in this process has encoded a key: decode a token key the harness
+	// assembled itself (the first plan of every worker process meets the codec cold)
+	{
+		fk := fixtures.RSAShared(int(p.Seed % 8))
+		own := RefPSSSPKI(fk.N, int64(fk.E))
+		back, err := util.UnmarshalTokenKey(own)
+		res.Evals++
+		if err != nil || back.N.Cmp(fk.N) != 0 || back.E != fk.E {
+			res.Violate("C18/pss-decode-before-encode", fmt.Sprintf("a well-formed RSASSA-PSS token key is not decoded when decoding precedes any encoding in the process: %v", err), -1)
+		}
+	}
 	w := BuildWorld(p, res, false)
 	checkRSA := func(label string, pub *rsa.PublicKey) {
 		res.Evals++
